@@ -545,6 +545,24 @@ def read_bitmap(
         return read_bitmap_file(f, pack_index=pack_index, pack_checksum=pack_checksum)
 
 
+def _read_words(f: IO[bytes], word_count: int) -> bytes:
+    """Read word_count 8-byte EWAH words without trusting the count.
+
+    The count comes from the file. Reading in bounded pieces stops at the end
+    of a truncated or corrupt file instead of asking for (and allocating) up
+    to 32 GiB at once.
+    """
+    remaining = word_count * 8
+    chunks = []
+    while remaining > 0:
+        data = f.read(min(remaining, 1 << 20))
+        if not data:
+            break
+        chunks.append(data)
+        remaining -= len(data)
+    return b"".join(chunks)
+
+
 def read_bitmap_file(
     f: IO[bytes],
     pack_index: "PackIndex | None" = None,
@@ -626,7 +644,7 @@ def read_bitmap_file(
         word_count = struct.unpack(">I", word_count_bytes)[0]
 
         # Read compressed words
-        words_data = f.read(word_count * 8)
+        words_data = _read_words(f, word_count)
         if len(words_data) < word_count * 8:
             raise ValueError(f"Incomplete type bitmap {i} data")
 
@@ -670,7 +688,7 @@ def read_bitmap_file(
         word_count = struct.unpack(">I", word_count_bytes)[0]
 
         # Read compressed words
-        words_data = f.read(word_count * 8)
+        words_data = _read_words(f, word_count)
         if len(words_data) < word_count * 8:
             raise ValueError("Incomplete bitmap entry EWAH words")
 
